@@ -344,18 +344,16 @@ theorem scanStars_loop : ∀ (stars : List (List Tk)) (s : PState) (rest : List 
     show pScanStars (run G) s = _
     simp [pScanStars, DeclSkel.bnd, h1, h2, h3, DeclSkel.pur]
 
-/-- **`_parse_any_declarator`** on a named declarator without grouping parentheses: the look-ahead
-scan finds the identifier, `_reset(mark)` goes back to the first token, and the declarator comes
-back as `parse_declarator` says -/
-theorem anyDeclarator_ok (d : D) (hwf : WFD d) (hn : NoParen d) (s : PState) (rest : List Tk)
-    (hs : SeesT env s (d.flat ++ rest)) (hfo : FollowD rest) (F : Nat) (hF : d.fuel + starsNtoks (dStars d) + 5 ≤ F) :
-    ∃ s', run F (.anyDeclarator false false) s = .ok (chainVal (d.chain s.idx) (d.td s.idx), true) s' ∧
-      SeesT env s' rest ∧ s'.idx = s.idx + d.ntoks := by
-  obtain ⟨G, rfl⟩ : ∃ G, F = G + 2 := ⟨F - 2, by omega⟩
+/-- the look-ahead scan `_peek_declarator_name_info`: finds the identifier; `_reset(mark)` then goes
+back to the first token of the declarator -/
+theorem scan_ok (d : D) (hwf : WFD d) (hn : NoParen d) (s : PState) (rest : List Tk)
+    (hs : SeesT env s (d.flat ++ rest)) (F : Nat) (hF : starsNtoks (dStars d) + 3 ≤ F) :
+    ∃ s3, run F .scanDeclaratorNameInfo s = .ok (some "ID", false) s3 ∧
+      ∃ s4, reset s.idx s3 = .ok () s4 ∧ SeesT env s4 (d.flat ++ rest) ∧ s4.idx = s.idx := by
+  obtain ⟨G, rfl⟩ : ∃ G, F = G + 1 := ⟨F - 1, by omega⟩
   have hflat := flat_noParen hwf hn
   have hs0 : SeesT env s (starsFlat (dStars d) ++ (("ID", dName d) :: (dPost d ++ rest))) := by
     rw [hflat] at hs; simpa [List.append_assoc] using hs
-  -- the scan
   obtain ⟨s1, h1, hs1, hi1⟩ := scanStars_loop (dStars d) s _ G (dStars_quals hwf)
     (by intro k v r h; simp only [List.cons.injEq, Prod.mk.injEq] at h; rw [← h.1.1]; exact ⟨by decide, by decide⟩) hs0 (by omega)
   obtain ⟨s2, h2, hs2, _, hi2, _⟩ := peek_spec s1 "ID" (dName d) _ hs1
@@ -363,12 +361,22 @@ theorem anyDeclarator_ok (d : D) (hwf : WFD d) (hn : NoParen d) (s : PState) (re
   have hscan : run (G + 1) .scanDeclaratorNameInfo s = .ok (some "ID", false) s3 := by
     show pScanDeclaratorNameInfo (run G) s = _
     simp [pScanDeclaratorNameInfo, DeclSkel.bnd, h1, h2, h3, DeclSkel.pur]
-  -- back to the mark
   obtain ⟨s4, h4, hs4, hi4⟩ := reset_to s s3 _ _ hs hs3 (by omega)
-  obtain ⟨s5, h5, hs5, hi5⟩ := parse_declarator d hwf s4 rest hs4 hfo (G + 1) (by omega)
+  exact ⟨s3, hscan, s4, h4, hs4, hi4⟩
+
+/-- **`_parse_any_declarator`** on a named declarator without grouping parentheses: the look-ahead
+scan finds the identifier, `_reset(mark)` goes back to the first token, and the declarator comes
+back as `parse_declarator` says -/
+theorem anyDeclarator_ok (d : D) (hwf : WFD d) (hn : NoParen d) (s : PState) (rest : List Tk)
+    (hs : SeesT env s (d.flat ++ rest)) (hfo : FollowD rest) (F : Nat) (hF : d.fuel + starsNtoks (dStars d) + 5 ≤ F) :
+    ∃ s', run F (.anyDeclarator false false) s = .ok (chainVal (d.chain s.idx) (d.td s.idx), true) s' ∧
+      SeesT env s' rest ∧ s'.idx = s.idx + d.ntoks := by
+  obtain ⟨G, rfl⟩ : ∃ G, F = G + 1 := ⟨F - 1, by omega⟩
+  obtain ⟨s3, hscan, s4, h4, hs4, hi4⟩ := scan_ok d hwf hn s rest hs G (by omega)
+  obtain ⟨s5, h5, hs5, hi5⟩ := parse_declarator d hwf s4 rest hs4 hfo G (by omega)
   refine ⟨s5, ?_, hs5, by omega⟩
   rw [hi4] at h5
-  show pAnyDeclarator (run (G + 1)) false false s = _
+  show pAnyDeclarator (run G) false false s = _
   simp [pAnyDeclarator, DeclSkel.bnd, mark, hscan, h4, h5, DeclSkel.pur]
 
 /-! ## init-declarators -/
